@@ -23,7 +23,7 @@ ASSUMPTIONS = ["what serde 1.0.229's derived visitors and Content buffer do (Mod
 
 KEYS = """bool u8 u16 u32 u64 usize i8 i16 i32 i64 isize f32 f64 char string strref bytebuf bytesref unit disp any ign
 US NT NTO TS P2 Prims WithOpt WithOpt2 Nested Wide Ext Ext2 Ext1 ExtU InnerU InnerC InnerUS InnerE Int IntF Adj Unt UntF
-Fl Fl2 FlM FlU FlF FlFC FlK FlMK FlMC
+Fl Fl2 FlM FlU FlF FlFC FlK FlMK FlMC InnerB IntB AdjB UntB FlB Hr arr4(u8)
 opt(u8) opt(string) opt(unit) opt(opt(u8)) opt(NTO) opt(P2) opt(Ext) opt(US)
 seq(u8) seq(opt(u16)) seq(P2) seq(Ext) seq(seq(i8)) seq(unit) seq(US) seq(Unt) seq(Int) seq(Fl) seq(Adj) seq(string) seq(bytebuf) seq(char)
 iseq(u8) iseq(P2) iseq(iseq(u8)) iseq(opt(string))
